@@ -7,6 +7,33 @@ def nontrivial(d):
     return any(a[0] in ("New", "Set") and a[1] > 0 for a in s) and any(a[0] in ("Step", "Walk", "WalkErr") for a in s)
 
 
+# ---- bin/selftest: one recorded field corrupted -> the trace spec must name the clause at exactly that line
+def _corrupt(ev, change, expect):
+    for i, e in enumerate(ev):
+        if e.get("ev") == "Op" and e.get("name") in ("Walk", "WalkErr") and len(e["nodes"]) >= 3 and len(e["nodes"][0]["hi"]) >= 2:
+            change(e["nodes"])
+            return ev, i, expect
+    return None
+
+
+def _pop(ns):
+    ns[-1]["hi"].pop(); ns[-1]["lmin"] -= 1; ns[-1]["lmax"] -= 1
+
+
+def _extra(ns):
+    for n in ns:
+        n["hi"].append(n["i"] - 1); n["lmin"] += 1; n["lmax"] += 1
+
+
+CORRUPT = {
+    "interval_not_propagated": lambda ev: _corrupt(ev, lambda ns: ns[-1].update(iv=ns[-1]["iv"] + 1), ["Propagated"]),
+    "one_history_shorter": lambda ev: _corrupt(ev, _pop, ["SameLength"]),
+    "entry_of_another_step": lambda ev: _corrupt(ev, lambda ns: ns[1]["hi"].__setitem__(1, ns[1]["hi"][1] + 1), ["SameStep"]),
+    "counter_ahead": lambda ev: _corrupt(ev, lambda ns: ns[-1].update(i=ns[-1]["i"] + 1), ["CountersEqual"]),
+    "one_save_too_many_everywhere": lambda ev: _corrupt(ev, _extra, ["SavedCount"]),
+    "column_shorter": lambda ev: _corrupt(ev, lambda ns: ns[0].update(lmin=ns[0]["lmin"] - 1), ["SameLength"]),
+}
+
 RULE = ("cases = every maximal schedule over {set_save_interval(None|1|2|3), initial save, step, failing step} reached by TLC "
         "in the bounded History configs (x consist make-up), each run against LocomotiveSimulation, ConsistSimulation, "
         "SetSpeedTrainSim and SpeedLimitTrainSim, + seeded whole runs through walk()/walk_timed_path() with random consist, "
@@ -28,10 +55,10 @@ GROUP = dict(
     models={
         "quick": [dict(cfg="MCHistory_quick.cfg", emit=True, max_emit=1500, workers=8, timeout=120),
                   dict(cfg="MCHistory_kinds.cfg", emit=False, workers=8, timeout=120)],
-        "thorough": [dict(cfg="MCHistory_thorough.cfg", emit=True, max_emit=40000, workers=8, timeout=900),
+        "thorough": [dict(cfg="MCHistory_thorough.cfg", emit=True, max_emit=25000, workers=8, timeout=900),
                      dict(cfg="MCHistory_thoroughK.cfg", emit=False, workers=8, timeout=900)],
     },
-    gen_n={"quick": 150, "thorough": 3000},
+    gen_n={"quick": 150, "thorough": 2000},
     per_case_ms=20000,
     nontrivial=nontrivial,
     rule=RULE,
@@ -41,7 +68,15 @@ GROUP = dict(
                     assumptions=ASSUME, exhaustive=False),
     },
     sigs={},
-    vacuity=lambda r: ("no action was recorded" if r["stats"].get("ops", 0) == 0 else
+    # Level B with one rule of the code changed: every Level-A clause family can fail in the model
+    fault_models=[dict(cfg="MCHistory_fault_skip_fric.cfg", expect=["Propagated"]),
+                  dict(cfg="MCHistory_fault_skip_gen.cfg", expect=["Propagated"]),
+                  dict(cfg="MCHistory_fault_gate_next.cfg", expect=["SameLength", "SameStep", "SavedCount", "Entries"]),
+                  dict(cfg="MCHistory_fault_save_on_err.cfg", expect=["SavedCount", "Entries"]),
+                  dict(cfg="MCHistory_fault_step_first.cfg", expect=["SavedCount", "Entries", "StepIndex"])],
+    corrupt=CORRUPT, selftest_cases=30,
+    vacuity=lambda r: (None if not r["models"] else          # --replay of a single case: nothing to balance
+                       "no action was recorded" if r["stats"].get("ops", 0) == 0 else
                        "no history entry was ever saved" if r["stats"].get("saved", 0) <= 0 else
                        "no failing step was recorded" if r["stats"].get("errsteps", 0) == 0 else
                        f"{r['stats']['panics']} cases panicked / aborted / timed out inside altrios (not a C19 verdict; see trace)" if r["stats"].get("panics", 0) else
